@@ -1,0 +1,460 @@
+//go:build verif
+
+package home
+
+import (
+	"context"
+	"crypto/sha256"
+	"encoding/hex"
+	"fmt"
+	"io"
+	"io/fs"
+	"net/http"
+	"net/netip"
+	"os"
+	"path/filepath"
+	"runtime"
+	"sort"
+	"sync"
+	"time"
+
+	"github.com/AdguardTeam/AdGuardHome/internal/dnsforward"
+	"github.com/AdguardTeam/AdGuardHome/internal/filtering"
+	"github.com/AdguardTeam/AdGuardHome/internal/querylog"
+	"github.com/AdguardTeam/AdGuardHome/internal/stats"
+	"github.com/AdguardTeam/golibs/log"
+	"github.com/AdguardTeam/golibs/logutil/slogutil"
+	"github.com/AdguardTeam/golibs/netutil"
+	"github.com/AdguardTeam/golibs/timeutil"
+	"go.etcd.io/bbolt"
+	"golang.org/x/crypto/bcrypt"
+	yaml "gopkg.in/yaml.v3"
+)
+
+// This file is only compiled with the "verif" build tag.  It adds accessors
+// used by the external deterministic-simulation harness (engine E5 "homeweb",
+// properties C11 and C12) and changes nothing in the shipped build.
+//
+// Package home keeps its node in package-level variables, so the harness
+// cannot assemble one from outside.  VerifHomesimNewNode assembles the web and
+// authentication part of a node the way run() / handleInstallConfigure do,
+// with the real constructors and the real registration code, but without
+// starting any listener, DNS/DHCP server or background loop.
+
+// VerifHomesimConf describes the node to assemble.
+type VerifHomesimConf struct {
+	// WorkDir is the (existing, empty or previously used) working directory.
+	WorkDir string
+
+	// User and Password are the credentials of the only administrator.  The
+	// password is hashed with bcrypt.MinCost.
+	User     string
+	Password string
+
+	// SessionTTL is the session lifetime in seconds.
+	SessionTTL uint32
+
+	// Attempts and BlockDur are the knobs of the real authRateLimiter.  If
+	// Attempts is zero, no limiter is installed (as initUsers does).
+	Attempts uint
+	BlockDur time.Duration
+
+	// ClientFS is the file system the static front-end is served from.
+	ClientFS fs.FS
+
+	// JustInstalled assembles the process state right after a successful
+	// first-run installation: the first-run registrations ("/", /install.html,
+	// /control/install/*) are on the mux together with everything a configured
+	// node registers.  Otherwise the state after a restart of a configured
+	// node is assembled.
+	JustInstalled bool
+
+	// Full also creates the filtering, statistics, query log and DNS server
+	// objects (none of them started) so that every package registers its
+	// handlers through the real httpRegister.  Without it only the routes of
+	// home's own control, auth and static handlers and of the DHCP server
+	// object (created with the clients container in every process) are
+	// registered.
+	Full bool
+}
+
+// VerifHomesimNode is the assembled node.
+type VerifHomesimNode struct {
+	conf     VerifHomesimConf
+	users    []webUser
+	handler  http.Handler
+	sessFile string
+	closed   bool
+}
+
+var (
+	verifHomesimOnce     sync.Once
+	verifHomesimPristine []byte
+)
+
+// VerifHomesimRepoDir returns the directory of package home of the tree this
+// binary was built from (for the source scan of route registrations).
+func VerifHomesimRepoDir() (dir string) {
+	_, file, _, _ := runtime.Caller(0)
+
+	return filepath.Dir(file)
+}
+
+// VerifHomesimNewNode assembles a node.  Only one node may exist at a time.
+func VerifHomesimNewNode(c *VerifHomesimConf) (n *VerifHomesimNode, err error) {
+	verifHomesimOnce.Do(func() {
+		log.SetOutput(io.Discard)
+		verifHomesimPristine, err = yaml.Marshal(config)
+	})
+	if err != nil {
+		return nil, fmt.Errorf("snapshot of default configuration: %w", err)
+	}
+
+	// A fresh copy of the default configuration, as a new process would have.
+	cfg := &configuration{}
+	err = yaml.Unmarshal(verifHomesimPristine, cfg)
+	if err != nil {
+		return nil, fmt.Errorf("restoring default configuration: %w", err)
+	}
+
+	// Nothing that would look at the host: loopback bind address, no ARP,
+	// WHOIS, rDNS, hosts-file or system-resolver sources.
+	cfg.DNS.BindHosts = []netip.Addr{netutil.IPv4Localhost()}
+	cfg.DNS.UsePrivateRDNS = false
+	cfg.DNS.HostsFileEnabled = false
+	cfg.Clients.Sources = &clientSourcesConfig{}
+	cfg.HTTPConfig.Address = netip.AddrPortFrom(netutil.IPv4Localhost(), 3000)
+	cfg.HTTPConfig.SessionTTL = timeutil.Duration(time.Duration(c.SessionTTL) * time.Second)
+
+	hash, err := bcrypt.GenerateFromPassword([]byte(c.Password), bcrypt.MinCost)
+	if err != nil {
+		return nil, fmt.Errorf("hashing password: %w", err)
+	}
+
+	n = &VerifHomesimNode{
+		conf:  *c,
+		users: []webUser{{Name: c.User, PasswordHash: string(hash)}},
+	}
+
+	// Process-level state of a freshly started process.
+	config = cfg
+	globalContext.clients = clientsContainer{}
+	globalContext.stats = nil
+	globalContext.queryLog = nil
+	globalContext.dnsServer = nil
+	globalContext.dhcpServer = nil
+	globalContext.auth = nil
+	globalContext.filters = nil
+	globalContext.web = nil
+	globalContext.tls = nil
+	globalContext.etcHosts = nil
+	globalContext.mux = http.NewServeMux()
+	globalContext.workDir = c.WorkDir
+	globalContext.confFilePath = filepath.Join(c.WorkDir, "AdGuardHome.yaml")
+	globalContext.firstRun = c.JustInstalled
+	webHandlersRegistered = false
+	dnsforward.VerifResetWebRegistered()
+	GLMode = false
+
+	ctx := context.Background()
+	logger := slogutil.NewDiscardLogger()
+
+	dataDir := globalContext.getDataDir()
+	err = os.MkdirAll(dataDir, 0o755)
+	if err != nil {
+		return nil, err
+	}
+
+	filtering.InitModule()
+
+	err = initContextClients(ctx, logger, newSignalHandler(nil, nil))
+	if err != nil {
+		return nil, fmt.Errorf("initContextClients: %w", err)
+	}
+
+	tlsMgr, err := newTLSManager(ctx, &tlsManagerConfig{
+		logger:         logger,
+		configModified: onConfigModified,
+		tlsSettings:    config.TLS,
+		servePlainDNS:  config.DNS.ServePlainDNS,
+	})
+	if err != nil {
+		return nil, fmt.Errorf("newTLSManager: %w", err)
+	}
+
+	globalContext.tls = tlsMgr
+
+	if c.Full {
+		err = setupDNSFilteringConf(ctx, logger, config.Filtering, tlsMgr)
+		if err != nil {
+			return nil, fmt.Errorf("setupDNSFilteringConf: %w", err)
+		}
+	}
+
+	upd, _ := newUpdater(ctx, logger, c.WorkDir, configFilePath(), filepath.Join(c.WorkDir, "AdGuardHome"), config)
+
+	// The authentication module, as initUsers does, with the given knobs.
+	n.sessFile = filepath.Join(dataDir, "sessions.db")
+	err = n.initAuth()
+	if err != nil {
+		return nil, err
+	}
+
+	config.Users = nil
+
+	webConf := &webConfig{
+		updater:    upd,
+		logger:     logger,
+		baseLogger: logger,
+		tlsManager: tlsMgr,
+
+		clientFS: c.ClientFS,
+
+		BindAddr: config.HTTPConfig.Address,
+
+		ReadTimeout:       readTimeout,
+		ReadHeaderTimeout: readHdrTimeout,
+		WriteTimeout:      writeTimeout,
+
+		firstRun:      c.JustInstalled,
+		disableUpdate: true,
+		serveHTTP3:    config.DNS.ServeHTTP3,
+	}
+
+	web := newWebAPI(ctx, webConf)
+	globalContext.web = web
+	tlsMgr.setWebAPI(web)
+
+	if c.Full {
+		err = n.startModsWithoutLoops(ctx, tlsMgr)
+		if err != nil {
+			return nil, err
+		}
+	}
+
+	if c.JustInstalled {
+		// What handleInstallConfigure does once the installation succeeded.
+		globalContext.firstRun = false
+		web.conf.firstRun = false
+		registerControlHandlers(web)
+	}
+
+	err = config.write(tlsMgr)
+	if err != nil {
+		return nil, fmt.Errorf("writing configuration: %w", err)
+	}
+
+	// The handler the listeners serve, see webAPI.start.
+	n.handler = withMiddlewares(globalContext.mux, limitRequestBody)
+
+	return n, nil
+}
+
+// startModsWithoutLoops is startMods without anything that listens or loops:
+// initDNS, the TLS manager's start, and the handler registrations that the
+// Start methods of the clients container, filtering, statistics and query log
+// perform.
+func (n *VerifHomesimNode) startModsWithoutLoops(ctx context.Context, tlsMgr *tlsManager) (err error) {
+	statsDir, querylogDir, err := checkStatsAndQuerylogDirs(&globalContext, config)
+	if err != nil {
+		return err
+	}
+
+	err = initDNS(slogutil.NewDiscardLogger(), tlsMgr, statsDir, querylogDir)
+	if err != nil {
+		return fmt.Errorf("initDNS: %w", err)
+	}
+
+	tlsMgr.start(ctx)
+
+	// clientsContainer.Start
+	if !webHandlersRegistered {
+		webHandlersRegistered = true
+		globalContext.clients.registerWebHandlers()
+	}
+
+	// DNSFilter.Start
+	globalContext.filters.RegisterFilteringHandlers()
+
+	// StatsCtx.Start
+	globalContext.stats.(*stats.StatsCtx).VerifInitWeb()
+
+	// queryLog.Start
+	querylog.VerifHomesimInitWeb(globalContext.queryLog)
+
+	return nil
+}
+
+// initAuth creates the authentication module on the node's session file.
+func (n *VerifHomesimNode) initAuth() (err error) {
+	var rateLimiter *authRateLimiter
+	if n.conf.Attempts > 0 && n.conf.BlockDur > 0 {
+		rateLimiter = newAuthRateLimiter(n.conf.BlockDur, n.conf.Attempts)
+	}
+
+	trustedProxies := netutil.SliceSubnetSet(netutil.UnembedPrefixes(config.DNS.TrustedProxies))
+	users := append([]webUser(nil), n.users...)
+	globalContext.auth = InitAuth(n.sessFile, users, n.conf.SessionTTL, rateLimiter, trustedProxies)
+	if globalContext.auth == nil {
+		return fmt.Errorf("initializing auth module failed")
+	}
+
+	return nil
+}
+
+// Handler returns the handler that the HTTP listeners of the node would
+// serve: the mux behind limitRequestBody.
+func (n *VerifHomesimNode) Handler() (h http.Handler) { return n.handler }
+
+// Mux returns the node's mux.
+func (n *VerifHomesimNode) Mux() (mux *http.ServeMux) { return globalContext.mux }
+
+// RestartAuth simulates a restart of the process as far as authentication is
+// concerned: the session database is closed (clean: through [Auth.Close];
+// otherwise only the database handle is dropped so that the file lock is
+// released, as the death of the process would) and a new module with a new,
+// empty rate limiter is created on the same file.
+func (n *VerifHomesimNode) RestartAuth(clean bool) (err error) {
+	a := globalContext.auth
+	if clean {
+		a.Close()
+	} else {
+		_ = a.db.Close()
+	}
+
+	globalContext.auth = nil
+
+	return n.initAuth()
+}
+
+// Sessions returns the number of sessions in memory and in the database file.
+func (n *VerifHomesimNode) Sessions() (mem, disk int) {
+	a := globalContext.auth
+	a.lock.Lock()
+	mem = len(a.sessions)
+	a.lock.Unlock()
+
+	_ = a.db.View(func(tx *bbolt.Tx) (err error) {
+		bkt := tx.Bucket(bucketName())
+		if bkt == nil {
+			return nil
+		}
+
+		return bkt.ForEach(func(_, _ []byte) (err error) {
+			disk++
+
+			return nil
+		})
+	})
+
+	return mem, disk
+}
+
+// StateDigest returns digests of the administrative state of the node: the
+// configuration file, what the configuration writer would write now (which
+// collects the live settings of every module), DHCP leases and the files of
+// the data directory except the session database.
+func (n *VerifHomesimNode) StateDigest() (digest string, err error) {
+	sum := func(b []byte) (s string) {
+		h := sha256.Sum256(b)
+
+		return hex.EncodeToString(h[:8])
+	}
+
+	confPath := globalContext.confFilePath
+	onDisk, err := os.ReadFile(confPath)
+	if err != nil {
+		return "", fmt.Errorf("reading configuration: %w", err)
+	}
+
+	tmpPath := filepath.Join(n.conf.WorkDir, "verif-digest.yaml")
+	globalContext.confFilePath = tmpPath
+	err = config.write(globalContext.tls)
+	globalContext.confFilePath = confPath
+	if err != nil {
+		return "", fmt.Errorf("collecting configuration: %w", err)
+	}
+
+	live, err := os.ReadFile(tmpPath)
+	if err != nil {
+		return "", fmt.Errorf("reading collected configuration: %w", err)
+	}
+
+	_ = os.Remove(tmpPath)
+
+	leases := ""
+	if srv := globalContext.dhcpServer; srv != nil {
+		var lines []string
+		for _, l := range srv.Leases() {
+			lines = append(lines, fmt.Sprintf("%s|%s|%s|%v|%d", l.HWAddr, l.IP, l.Hostname, l.IsStatic, l.Expiry.Unix()))
+		}
+
+		sort.Strings(lines)
+		leases = fmt.Sprint(lines)
+	}
+
+	var files []string
+	err = filepath.WalkDir(n.conf.WorkDir, func(p string, d fs.DirEntry, walkErr error) (err error) {
+		if walkErr != nil || d.IsDir() || p == n.sessFile || p == confPath || p == tmpPath {
+			return nil
+		}
+
+		b, readErr := os.ReadFile(p)
+		if readErr != nil {
+			return nil
+		}
+
+		rel, _ := filepath.Rel(n.conf.WorkDir, p)
+		files = append(files, rel+":"+sum(b))
+
+		return nil
+	})
+	if err != nil {
+		return "", err
+	}
+
+	sort.Strings(files)
+
+	users := ""
+	for _, u := range globalContext.auth.usersList() {
+		users += u.Name + ":" + sum([]byte(u.PasswordHash)) + ";"
+	}
+
+	return fmt.Sprintf(
+		"conf_file=%s live=%s leases=%s files=%s users=%s first_run=%v",
+		sum(onDisk),
+		sum(live),
+		sum([]byte(leases)),
+		sum([]byte(fmt.Sprint(files))),
+		users,
+		globalContext.firstRun,
+	), nil
+}
+
+// Close releases everything the node holds.
+func (n *VerifHomesimNode) Close() {
+	if n.closed {
+		return
+	}
+
+	n.closed = true
+
+	if globalContext.auth != nil {
+		globalContext.auth.Close()
+		globalContext.auth = nil
+	}
+
+	if n.conf.Full {
+		if globalContext.dnsServer != nil {
+			globalContext.dnsServer.VerifHomesimCloseAddrProc()
+		}
+
+		closeDNSServer()
+	}
+
+	if globalContext.clients.storage != nil {
+		_ = globalContext.clients.close(context.Background())
+	}
+
+	globalContext.web = nil
+}
